@@ -43,13 +43,13 @@ def unit(*parts) -> float:
 
 
 class Proc:
-    def __init__(self, name, skew=1.0):
+    def __init__(self, name, skew=1.0, role=None):
         self.name = name
+        self.role = role or name  # disk events are counted per role (all incarnations of 'server', all client processes)
         self.alive = True
         self.transports = []
         self.skew = skew
         self.death = None  # future resolved (in harness context) when killed
-        self.disk_k = 0  # per-process disk event counter
 
     def __repr__(self):
         return f"<Proc {self.name} {'up' if self.alive else 'DEAD'}>"
@@ -344,6 +344,7 @@ class Sim:
         self.counters = {}
         self.stalls = {}  # (cid, side) -> [(from_seq, seconds)]
         self.tasks = []
+        self.role_k = {}  # role -> number of disk events so far
 
     # -- bookkeeping
     def count(self, name, n=1):
@@ -357,8 +358,8 @@ class Sim:
         return h.hexdigest()[:24]
 
     # -- processes
-    def new_proc(self, name, skew=1.0):
-        p = Proc(name, skew)
+    def new_proc(self, name, skew=1.0, role=None):
+        p = Proc(name, skew, role)
         p.death = self.loop.create_future()
         self.procs.append(p)
         return p
